@@ -55,6 +55,8 @@ def run_case(cs):
     d = cs.dir()
     root = os.path.join(d, world.root_name(rng))
     os.makedirs(root)
+    if not exhaustive and rng.random() < 0.05:
+        return _chain_case(cs, root)
     if exhaustive:
         seq, pat = EXH[idx]
         files = ["f.bin"]
@@ -270,6 +272,88 @@ def run_case(cs):
         pat = "".join("".join(sorted(set(t.values()))) + "." for t in trans)
         cs.cls("-".join(shape), pat[:24], "sf" if mode_sf else "folder", "nested" if nested else "flat")
     cs.sample({"files": files, "nested": nested, "steps": steps})
+
+
+def _chain_case(cs, root):
+    """histories nested three and four levels deep (ROOT > A > B > C > D): the record of a file in the innermost history
+    is the reference for runs started at any level above it"""
+    rng = cs.rng
+    depth = rng.choice([3, 4, 4])
+    chain = ["A", "A/B", "A/B/C", "A/B/C/D"][:depth]
+    fm = rng.choice(["md5", "xxh64", "sha1"])
+    content = {}
+    for lvl in [""] + chain:
+        os.makedirs(os.path.join(root, lvl), exist_ok=True)
+        rel = (lvl + "/" if lvl else "") + "f.bin"
+        content[rel] = rng.randbytes(rng.randint(1, 20)) + rel.encode()
+        with open(os.path.join(root, rel), "wb") as fh:
+            fh.write(content[rel])
+    steps = []
+    order = list(reversed(chain)) if rng.random() < 0.6 else rng.sample(chain, len(chain))
+    for h in order:
+        r = drive.run("create", [os.path.join(root, h), "-h", fm])
+        steps.append(f"seal {h} => {r.exit}")
+        if r.exit != 0:
+            cs.skip("chain-seal-failed")
+            return
+    r, new, before, after = hist.create(root, [fm], [])
+    steps.append(f"root g1 => {r.exit}")
+    cs.evaluated()
+    if r.internal or r.exit != 0:
+        cs.violation(classify.internal_key(r) if r.internal else "unaltered-create-nonzero", {"kind": "create-exit", "exit": r.exit, "want": 0, "sf": False}, {"steps": steps, "out": r.text[-300:]})
+        return
+    victim_h = chain[-1]
+    victim = victim_h + "/f.bin"
+    altered = False
+    for g in range(rng.randint(2, 4)):
+        t = rng.choice("KAR" if altered else "KA")
+        if t == "A":
+            altered = True
+            with open(os.path.join(root, victim), "wb") as fh:
+                fh.write(rng.randbytes(9) + b"#%d" % g)
+        elif t == "R":
+            altered = False
+            with open(os.path.join(root, victim), "wb") as fh:
+                fh.write(content[victim])
+        start = rng.choice([""] + chain[:-1])  # the run starts at the root or at one of the histories in between
+        sf = ["-sf", os.path.join(root, victim)] if rng.random() < 0.3 else []
+        r, new, before, after = hist.create(os.path.join(root, start) if start else root, [fm], sf)
+        steps.append(f"create at {start or '.'} {'-sf' if sf else ''} altered={altered} => {r.exit}")
+        cs.evaluated()
+        cs.count("gens")
+        cs.count("chain_case_runs")
+        if altered:
+            cs.count("gens_altered")
+        if r.internal:
+            cs.violation(classify.internal_key(r), classify.internal_sig(r, "create"), {"steps": steps, **r.brief()})
+            return
+        want_exit = 11 if altered else 0
+        if r.exit != want_exit:
+            cs.violation("unaltered-create-nonzero" if not altered else "altered-create-not-11", {"kind": "create-exit", "exit": r.exit, "want": want_exit, "sf": bool(sf)}, {"steps": steps, "depth": depth, "out": r.text[-400:]})
+            return
+        # the record must be in the innermost history and judged against that history's first record
+        rel_h = os.path.relpath(os.path.join(root, victim_h), os.path.join(root, start) if start else root)
+        names = [n for n in new.get(rel_h, []) if n.endswith(".mhl")]
+        if len(names) != 1:
+            cs.violation("sealed-file-without-record", {"kind": "no-generation-in-owning-history", "depth": depth}, {"steps": steps, "new": {k: v for k, v in new.items()}})
+            return
+        m = xmlread.read_manifest_bytes(after[rel_h][names[0]])
+        recs = [x for x in m["hashes"] if x["kind"] == "file" and x["path"] == "f.bin"]
+        if len(recs) != 1:
+            cs.violation("sealed-file-without-record", {"kind": "no-record-in-owning-history", "depth": depth}, {"steps": steps})
+            return
+        for f, dg, a, _ in recs[0]["entries"]:
+            cs.count("entries_judged")
+            want = "failed" if altered else "verified"
+            if a != want:
+                cs.violation("action-not-judged-against-earliest", {"kind": "action", "got": a, "want": want, "recorded_format": True}, {"steps": steps, "depth": depth})
+        for h2 in new:
+            if h2 != rel_h:
+                m2 = xmlread.read_manifest_bytes(after[h2][[n for n in new[h2] if n.endswith(".mhl")][0]]) if any(n.endswith(".mhl") for n in new[h2]) else None
+                if m2 and any(x["kind"] == "file" and x["path"].endswith(victim_h.split("/")[-1] + "/f.bin") for x in m2["hashes"]):
+                    cs.violation("original-outside-first-generation", {"kind": "file-of-inner-history-recorded-in-outer-one", "depth": depth}, {"steps": steps, "history": h2})
+    cs.cls("chain", "depth%d" % depth, fm)
+    cs.sample({"chain": chain, "steps": steps})
 
 
 def _learn_child(cs, root, current, first_gen, earliest, steps):
